@@ -172,7 +172,8 @@ pub fn run_threads(ctx: &Ctx) -> Report {
     // many short rounds on FRESH shared instances: whatever an instance does lazily on its first
     // call is hit by all threads at once (they leave a spin gate together and start with the same
     // decrypt on the same instance)
-    let rounds = ctx.budget(240, 4000, 1);
+    let light = cfg!(miri) || ctx.light();
+    let rounds = if light { ctx.budget(240, 4000, 1).min(2) } else { ctx.budget(240, 4000, 1) };
     let in_flight = Arc::new(AtomicUsize::new(0));
     let mut overlap_hist = vec![0u64; 33];
     for r in 0..rounds {
@@ -187,9 +188,9 @@ pub fn run_threads(ctx: &Ctx) -> Report {
             if let Some(s) = make_slot(&es, &pool, &mut rng, None, pick) {
                 let bs = s.inst.bs();
                 let mut cases = Vec::new();
-                for c in 0..24u64 {
+                for c in 0..(if light { 6 } else { 24u64 }) {
                     let encrypt = c % 2 == 0;
-                    let n = if c % 3 == 0 { [2usize, 3, 5, 9, 10, 19, 22, 43][rng.below(8)] } else { 1 };
+                    let n = if c % 3 == 0 { [2usize, 3, 5, 9, 10, 19, 22, 43][rng.below(if light { 3 } else { 8 })] } else { 1 };
                     let cl = gen::pick_class(&mut rng, c);
                     let data = gen::gen(&mut rng, n * bs, cl);
                     let mut want = data.clone();
